@@ -272,14 +272,15 @@ def specificity(args):
             continue
         try:
             # a change is expected to be quiet for the property it was written to
-            # preserve; the first two batches kept all outputs identical and are
+            # preserve; the batches r, s and v kept all outputs identical and are
             # cross-checked against the other checks too, the third batch ("may
             # alter behaviour the property does not constrain") only against its own
-            checks = REFACTOR_CHECKS.get(rid[:3], [rid[:3]]) if rid[3:4] in ("r", "s") else [rid[:3]]
+            checks = REFACTOR_CHECKS.get(rid[:3], [rid[:3]]) if rid[3:4] in ("r", "s", "v") else [rid[:3]]
             for chk in checks:
                 env = dict(os.environ)
                 env["VERIF_REPO"] = d
                 env["VERIF_REPO_SRC"] = os.path.join(d, "src")
+                env["VERIF_REPLAY_DIR"] = os.path.join(d, "replays")
                 t0 = time.time()
                 p = subprocess.run([CHECK, chk, "--tier", "quick", "--no-evidence", "--no-shrink"], env=env,
                                    capture_output=True, text=True, timeout=3600, check=False)
